@@ -22,6 +22,9 @@ EXTRA = {
     "tokerr_accent": "local caf\u00e9 = 1\r\nprint(undefined_z)\r\n",
     "deep": "local function f()\n  local function g()\n    return undefined_deep\n  end\n  return g\nend\nreturn f\n",
     "tabs": "\tlocal\tunused_tab = 1\n\t\tprint(undefined_tab)\n",
+    # a file saved as "UTF-8 with BOM": whatever the tool makes of the mark, every style describes the bytes on disk
+    "bom": "\ufefflocal unused_bom = 1\nprint(undefined_bom)\n",
+    "bom_crlf": "\ufeffprint(undefined_bom)\r\nlocal unused_bom = 1\r\n",
 }
 
 
